@@ -29,6 +29,7 @@ K_DUP = "F8b-case-variant-duplicate-keys"
 K_ELEM = "F8c-float-literal-into-string-or-bool-element"
 K_MAP = "F8d-absent-map-field-empty-vs-nil"
 K_NULLS = "F8e-slice-of-only-nulls-nil-vs-zeros"
+K_PTR = "F8f-absent-pointer-to-empty-struct"       # proposed (notes/C17.md); the witness runs in extra() until it is registered
 
 
 # ---------------------------------------------------------------------------- constructors
@@ -495,6 +496,8 @@ def std_shapes(fields, doc, shapes):
         if not vs:
             if has_map(f["t"]):
                 shapes.add(K_MAP)
+            if f["t"]["k"] == "ptr" and deref(f["t"])["k"] == "struct" and not deref(f["t"])["f"]:
+                shapes.add(K_PTR)
             continue
         std_shapes_v(f["t"], vs[-1], shapes)
 
@@ -1590,6 +1593,21 @@ def number_corpus():
     return cs
 
 
+def null_corpus():
+    """documents WITH nulls, JSON and YAML only (TOML has no null, so they are outside the three-format quantifier):
+    the executor witness of Props.yaml_null_refuted (JSON null is 'absent', YAML null arrives as the string "") and
+    the same at the other kinds of position; judged against the model, and for 'no panic'"""
+    opt = O(opt=True)
+    T = [F("a", P("int"), opt), F("s", P("string"), opt), F("b", P("bool"), opt), F("f", P("float64"), opt), F("p", Ptr(P("int")), opt),
+         F("l", Sl(P("int")), opt), F("ls", Sl(P("string")), opt), F("m", Mp(P("string")), opt), F("st", St(F("X", P("int"), opt)), opt)]
+    docs = [dm(("a", NULL)), dm(("s", NULL)), dm(("b", NULL)), dm(("f", NULL)), dm(("p", NULL)), dm(("l", NULL)), dm(("m", NULL)), dm(("st", NULL)),
+            dm(("l", dl(di(1), NULL))), dm(("ls", dl(ds("x"), NULL))), dm(("m", dm(("k", NULL)))), dm(("st", dm(("X", NULL)))),
+            dm(("a", di(1)), ("s", NULL), ("l", dl()))]
+    cs = [{"kind": "nulls", "tag": "null-%d" % i, "type": T, "doc": d, "doc2": None, "env": None} for i, d in enumerate(docs)]
+    cs.append({"kind": "nulls", "tag": "null-required", "type": [F("a", P("int"))], "doc": dm(("a", NULL)), "doc2": None, "env": None})
+    return cs
+
+
 # ---------------------------------------------------------------------------- constants read from the source
 
 def regen_constants():
@@ -1746,6 +1764,10 @@ class C17(Property):
             (K_MAP, {"kind": "std", "type": [F("m", Mp(P("int")))], "doc": dm(), "doc2": None, "env": None}),
             (K_NULLS, {"kind": "std", "type": [F("a", Sl(P("int")))], "doc": dm(("a", dl(NULL, NULL))), "doc2": None,
                        "env": None}),
+            # the exact witnesses of Props.float_into_string_element_refuted / absent_pointer_refuted
+            (K_ELEM, {"kind": "load", "type": [F("a", Sl(P("string")))], "doc": dm(("a", dl(dfl("1e21")))), "doc2": None,
+                      "env": None}),
+            (K_PTR, self.absent_pointer_witness()),
         ]
         if fix_landed():
             cs.append({"kind": "load", "type": [F("m", Mp(Mp(Sl(P("int")))))],
@@ -1761,7 +1783,7 @@ class C17(Property):
                  "doc2": dm(("VALUE", dm(("first", dm(("User", dm(("user", ds("u")))))))), ("l", dl(dm(("User", dm(("User", ds("w")))))))),
                  "env": None},
             ]
-        cs = spelling_corpus() + number_corpus() + cs + raw_corpus() + bad_corpus()
+        cs = spelling_corpus() + number_corpus() + cs + raw_corpus() + bad_corpus() + null_corpus()
         # aliasing witnesses (seeded change C17-4): two entries, two cells
         for kind, key in (("std", "limits"), ("load", "Limits"), ("mfmt", "Limits")):
             cs.append({"kind": kind, "type": [F(key, Mp(Ptr(P("int")))), F("rates", Mp(Mp(Ptr(P("float64")))), None if kind == "std" else O(opt=True))],
@@ -1955,6 +1977,9 @@ class C17(Property):
         if case["kind"] == "mfmt":
             return "CaseMFmt %s %s %s %s" % (cfields(case["type"]), cdoc(case["doc"]), cob3(obs.get("mbytes") or {}),
                                             cob3(obs.get("mreaders") or {}))
+        if case["kind"] == "nulls":
+            l = obs.get("load") or {}
+            return "CaseNull %s %s %s %s" % (cfields(case["type"]), cdoc(case["doc"]), cob(l.get("json")), cob(l.get("yaml")))
         d2 = case.get("doc2")
         w = obs.get("white") or {}
         info = "None"
@@ -2001,6 +2026,7 @@ class C17(Property):
         points) over and over while the others do the same: every result must be the one the same load gives
         sequentially — nothing a loader returns or uses between its steps may be shared with another load"""
         import random
+        self.exclusions_still_witnessed(ctx)
         rng = random.Random(ctx.seed * 31 + 5)
         g = Gen(rng, "quick")
         base = []
@@ -2059,10 +2085,31 @@ class C17(Property):
         if case["kind"] not in ("load", "std") or not obs.get("known_exact"):
             return None
         shapes = detect_shapes(case)
-        for kid in (K_F8A, K_ELEM, K_EMB, K_DUP, K_MAP, K_NULLS):
+        for kid in (K_F8A, K_ELEM, K_EMB, K_DUP, K_MAP, K_NULLS, K_PTR):
             if kid in shapes:
                 return kid
         return None
+
+    @staticmethod
+    def absent_pointer_witness():
+        return {"kind": "std", "type": [F("p", Ptr(St()))], "doc": dm(), "doc2": None, "env": None}
+
+    def exclusions_still_witnessed(self, ctx):
+        """Every `..._refuted` theorem of Props.v that records a deliberate difference (between the formats, or
+        from encoding/json) has its exact witness among the fixed cases (flagged corpus cases, null_corpus); the
+        model HAS these differences, so a witness that stops differing on the tree shows as a disagreement.  The
+        one witness that is not a registered known finding (absent *struct{}: Props.absent_pointer_refuted) is
+        run here: the model must reproduce it and the two decoders must still differ on it."""
+        if K_PTR in vlib.known_ids(self.id):
+            return            # registered: it runs with the flagged corpus cases
+        import runner
+        c = self.absent_pointer_witness()
+        c["id"] = 0
+        r = runner.evaluate(self, ctx, [c])[0]
+        if not r["agrees"] or r["prop_ok"]:
+            raise ExecError("the exclusion recorded by Props.absent_pointer_refuted (an absent *struct{} field: allocated by mapping, "
+                            "nil for encoding/json) is no longer witnessed by the tree: mapping=%s encoding/json=%s (model agrees: %s)"
+                            % (json.dumps(r["obs"].get("mapping")), json.dumps(r["obs"].get("stdjson")), r["agrees"]))
 
     def nontrivial(self, case, obs):
         txt = json.dumps(case["doc"])
@@ -2073,6 +2120,8 @@ class C17(Property):
             return rich and any(r.get("verdict") == "ok" for r in (obs.get("mbytes") or {}).values())
         if case["kind"] == "bad":
             return all(r.get("verdict") == "error" for r in (obs.get("load") or {}).values())
+        if case["kind"] == "nulls":
+            return len(set(json.dumps(r.get("val"), sort_keys=True) + r.get("verdict", "") for r in (obs.get("load") or {}).values())) > 1
         if case["kind"] == "shape":
             # the lower-casing did something: the map handed to the unmarshaller is not the document as written
             w = obs.get("white") or {}
